@@ -59,6 +59,24 @@ func main() {
 		os.Exit(runCheck(prop, *tier, seed, *workers))
 	case "replay":
 		os.Exit(runReplay(os.Args[2]))
+	case "racebody":
+		// stfsmc racebody <scenario> <iterations>   (binary built with -race; free-running goroutines)
+		keys, err := rig.LoadKeys(keysPath())
+		if err != nil {
+			fmt.Fprintln(os.Stderr, err)
+			os.Exit(2)
+		}
+		scratch := filepath.Join("/dev/shm", fmt.Sprintf("stfsmc-race-%d", os.Getpid()))
+		_ = os.MkdirAll(scratch, 0o755)
+		defer os.RemoveAll(scratch)
+		n, _ := strconv.Atoi(os.Args[3])
+		fin, stuck, err := engines.RaceBody(&engines.Env{Keys: keys, Scratch: scratch}, os.Args[2], n)
+		os.RemoveAll(scratch)
+		if err != nil {
+			fmt.Fprintln(os.Stderr, "racebody:", err)
+			os.Exit(2)
+		}
+		fmt.Printf("RACEBODY scenario=%s finished=%d stuck=%d\n", os.Args[2], fin, stuck)
 	default:
 		fmt.Fprintln(os.Stderr, "unknown command", os.Args[1])
 		os.Exit(2)
